@@ -41,7 +41,7 @@ def _domains(tier):
     L, S = (3, 4) if tier == "quick" else (4, 5)
     lists = list(G.all_lists(G.LIST_ALPHABET, L))
     strs = list(G.all_strings(G.STR_ALPHABET, S))
-    objs = list(G.all_objects(["p", "q"], G.OBJ_VALUES))
+    objs = list(G.all_objects(["p", "7"], G.OBJ_VALUES))
     return lists, strs, objs
 
 
